@@ -10,7 +10,7 @@ import vfw
 from script import Case, fl
 
 N = {'quick': 5000, 'thorough': 100000}
-KINDS = ['p', 'f', 'r', 't', 'x']
+KINDS = ['p', 'f', 'r', 't', 'x', 'q']        # q: a repetition transformed on its own
 ANG = [0.0, math.pi / 2, -math.pi / 2, math.pi, 0.3, -1.1, 2.0, math.pi / 4, 7.0]
 MAG = [1.0, 2.0, 0.5, 1.5, -1.0, -2.0, 3.0]
 
@@ -78,7 +78,9 @@ def emit_op(c, h, op):
 def make_case(i):
     sd = vfw.seed() * 1000003 + 100000 + i
     rnd = random.Random(sd)
-    kind = KINDS[i % 5]
+    kind = KINDS[i % 6]
+    if kind == 'q':
+        return make_rep_case(i, sd, rnd)
     g = genlib.Gen(sd, dict(oas_props=False, gds_props=False, reps=(kind == 'x'), nonsimple=True, round_ends=True))
     c = Case('T%d' % i, timeout=60)
     c.op('lib', '4c', '1e-06', '1e-09')
@@ -134,6 +136,56 @@ def make_case(i):
     return c
 
 
+def make_rep_case(i, sd, rnd):
+    """the placement part of a transform (magnify, reflect across x, rotate) applied to a repetition, once or several times in a row"""
+    g = genlib.Gen(sd, dict(oas_props=False, gds_props=False, reps=True, rep_zero=True))
+    G = 0.01
+    c = Case('T%d' % i, timeout=60)
+    rep = None
+    for _ in range(20):
+        rep = g.repetition(G, True)
+        if rep is not None:
+            break
+    spec = {'tag': (1, 2), 'pts': [(0.0, 0.0), (1.0, 0.0), (0.0, 1.0)], 'rep': rep, 'props': []}
+    genlib.emit_polygon(c, '-', spec)
+    c.op('rep_info', 'p0')
+    ops = []
+    for _ in range(rnd.choice([1, 1, 2, 3])):
+        op = (rnd.choice(MAG), rnd.random() < 0.5, rnd.choice(ANG))
+        ops.append(op)
+        c.op('rep_transform', 'p0', fl(op[0]), int(op[1]), fl(op[2]))
+    c.meta = {'kind': 'q', 'ops': ops, 'seed': sd, 'spec': spec}
+    return c
+
+
+def judge_rep(chk, c, evs):
+    m = c.meta
+    rp = {'case': c.text(), 'meta': {'seed': m['seed']}}
+    if not script.check_exit(chk, c, evs):
+        return
+    info = [e for e in evs if e['op'] == 'rep_info' and e.get('k') != 'call']
+    tr = [e for e in evs if e['op'] == 'rep_transform' and e.get('k') != 'call']
+    if not info or len(tr) != len(m['ops']):
+        chk.harness_error('%s: events missing' % c.id)
+        return
+    cur = pairs(info[0]['offsets'])
+    M = (1.0, 0.0, 0.0, 0.0, 1.0, 0.0)
+    for k, (op, e) in enumerate(zip(m['ops'], tr)):
+        mag, xr, rot = op
+        M = geom.m_mul(geom.m_placement(mag, xr, rot, (0.0, 0.0)), M)
+        want = sorted((round(M[0] * x + M[1] * y, 9), round(M[3] * x + M[4] * y, 9)) for x, y in cur)
+        got = sorted((round(x, 9), round(y, 9)) for x, y in pairs(e['offsets']))
+        scale = max([1.0] + [abs(v) for p in want for v in p])
+        if len(want) != len(got) or any(abs(a[0] - b[0]) > 1e-8 * scale or abs(a[1] - b[1]) > 1e-8 * scale for a, b in zip(want, got)):
+            chk.violation('C10/repetition/transform', '%s repetition after transform %d of %s: vectors %s, the linear map gives %s' % (
+                (m['spec']['rep'] or {}).get('kind'), k + 1, m['ops'], got[:5], want[:5]), rp)
+            return
+        chk.cov('repetition_transforms_checked')
+    chk.cov('cases_judged')
+    if len(cur) > 1:
+        chk.fp(c.id)
+
+
 def pairs(flat):
     return [(flat[k], flat[k + 1]) for k in range(0, len(flat), 2)]
 
@@ -150,6 +202,8 @@ def placement_of(el):
 
 
 def judge(chk, c, evs):
+    if c.meta.get('kind') == 'q':
+        return judge_rep(chk, c, evs)
     m = c.meta
     kind, ops = m['kind'], m['ops']
     rp = {'case': c.text(), 'meta': {'seed': m['seed'], 'ops': ops, 'kind': kind}}
